@@ -10,7 +10,7 @@ From Coq Require Import ZArith List Bool Lia Permutation.
 From Arsenal Require Import Util Budget BudgetProofs VamDev VamBlockList VamDefrag Vam VamInvMeta VamInv VamInvUpd VamInvDev.
 From Arsenal Require Import VamInvStep VamInvStep2 VamInvThm VamProps VamAcct VamAcctStep VamAcctStep2 VamAcctThm.
 From Arsenal Require Import VamDefragInv VamDefragStep VamDefragPass VamDefragThm.
-From Arsenal Require Pass PassProofs Defrag DefragProofs SyncMem VamDefragBridge.
+From Arsenal Require Pass PassProofs Defrag DefragProofs DefragGranProofs Gran GranInv GranTlsf VamGran SyncMem VamDefragBridge.
 Import ListNotations.
 Open Scope Z_scope.
 
@@ -331,7 +331,7 @@ Qed.
 (* BlockListCollectMoves of one context *)
 Lemma collect_list_inv v dc p :
   VamInvA v [] [] -> Defrag.c_moves (dc_ctx dc) = [] -> PassProofs.pass_running p ->
-  (forall l, get_blist v (dc_lr dc) = Some l -> bl_gran l = 1) ->
+  VamGran.GV v ->
   let '(v', r) := collect_list c v dc p in
   match r with
   | OK (dc', p') =>
@@ -343,24 +343,24 @@ Lemma collect_list_inv v dc p :
   end.
 Proof.
   intros HI Hidle Hrun HG1. pose proof (va_s _ _ _ _ HI) as HS. pose proof (va_a _ _ _ _ HI) as HA.
-  pose proof (VamDefragPass.collect_list_inv c v dc p HS Hidle Hrun HG1) as P. unfold collect_list in *.
+  pose proof (VamDefragPass.collect_list_inv c v dc p HS HG1 Hidle Hrun) as P. unfold collect_list in *.
   destruct (project v (dc_lr dc)) as [st|] eqn:Ep; [|exact I].
   destruct (get_blist v (dc_lr dc)) as [l|] eqn:Hg; [|exact I].
   assert (Est : exists bl, project_blocks (bl_blocks l) = Some bl /\ st = Defrag.mkD bl (map (project_entry (dc_lr dc)) (v_tab v)) false).
   { unfold project in Ep. rewrite Hg in Ep. destruct (project_blocks (bl_blocks l)) as [bl|]; [|discriminate]. injection Ep as <-. eauto. }
   destruct Est as (bl & Epb & Est).
-  pose proof (project_wf c v (dc_lr dc) l st HS Hg (HG1 l eq_refl) Ep) as HW.
-  destruct (VamDefragBridge.collect_moves_f_inv_g1 vam (att_commit c (dc_lr dc)) st (dc_ctx dc) p v HW Hrun) as (new & HC & _).
-  destruct (VamDefragBridge.collect_moves_f_log_g1 vam (att_commit c (dc_lr dc)) st (dc_ctx dc) p v) as (Hlg & _).
+  pose proof (project_wf c v (dc_lr dc) l st HS HG1 Hg Ep) as HW.
+  destruct (VamDefragBridge.collect_moves_f_inv_p (bl_gran l) vam (att_commit c (dc_lr dc)) st (dc_ctx dc) p v HW Hrun) as (new & HC & _).
+  destruct (VamDefragBridge.collect_moves_f_log_p vam (att_commit c (dc_lr dc)) st (dc_ctx dc) p v) as (Hlg & _).
   destruct (Defrag.collect_moves_f vam (att_commit c (dc_lr dc)) st (dc_ctx dc) p v) as (((cs & env) & log) & wr).
   unfold Defrag.res_f, Defrag.log_f in *. cbn [fst snd] in HC, Hlg.
-  pose proof (DefragProofs.ci_moves _ _ _ _ _ _ HC) as Hms. rewrite Hidle in Hms, Hlg. cbn [app] in Hms, Hlg.
+  pose proof (DefragGranProofs.ci_moves Gran.HVam (bl_gran l) (GranTlsf.GInv (bl_gran l)) GranInv.kind_ok _ _ _ _ _ _ HC) as Hms. rewrite Hidle in Hms, Hlg. cbn [app] in Hms, Hlg.
   assert (Hnew : new = Defrag.log_moves log) by congruence.
   rewrite Hms in *.
   (* sizes of the moves *)
   assert (Hsz : Forall (fun mv => 0 < Defrag.m_size mv < 2 ^ 39) new).
   { apply Forall_forall. intros m Hm. subst st.
-    destruct (tmp_region_exists _ _ _ _ cs new m HW eq_refl HC Hm) as (_ & _ & es & _ & _ & E1 & _ & E3 & _).
+    destruct (tmp_region_exists (bl_gran l) _ _ _ _ cs new m HW eq_refl HC Hm) as (_ & _ & es & _ & _ & E1 & _ & E3 & _).
     destruct (entry_project _ _ _ _ _ _ E1) as (a & Sa & Ka & La & ->). cbn [Defrag.u_size] in E3. rewrite <- E3.
     apply (slot_size_bound c Hc Hmax Hlarge v [] [] _ _ a HS (ai_mb _ _ _ HA) Sa). intros []. }
   set (v1 := set_blist v (dc_lr dc) (set_blocks l (unproject_blocks (bl_blocks l) (Defrag.d_blocks (Defrag.cs_st cs))))) in *.
@@ -382,7 +382,7 @@ Qed.
 
 (* BeginDefragPass: the accounting half (the structural half is VamDefragPass.pass_loop_inv) *)
 Lemma pass_loop_acct fuel : forall v run p,
-  VamInvA v [] [] -> run_idle run -> 0 <= dr_max_bytes run -> 0 <= dr_max_allocs run -> PassProofs.pass_running p -> lists_g1 v run ->
+  VamInvA v [] [] -> run_idle run -> 0 <= dr_max_bytes run -> 0 <= dr_max_allocs run -> PassProofs.pass_running p -> VamGran.GV v ->
   let '(v', run', r) := pass_loop c fuel v run p in
   match r with
   | OK _ => zlen (v_tab v') <= 4194304 -> AInv c v' []
@@ -393,10 +393,10 @@ Proof.
   pose proof (va_s _ _ _ _ HI) as HS.
   destruct (nth_z (dr_ctxs run) (dr_progress run)) as [dc|] eqn:En; [|intros _; apply (va_a _ _ _ _ HI)].
   assert (Hdc : Defrag.c_moves (dc_ctx dc) = []) by (eapply Hidle; eauto).
-  pose proof (VamDefragPass.collect_list_inv c v dc p HS Hdc Hrun (fun l Hl => HG _ _ _ En Hl)) as PS.
-  pose proof (collect_list_inv v dc p HI Hdc Hrun (fun l Hl => HG _ _ _ En Hl)) as P.
+  pose proof (VamDefragPass.collect_list_inv_gv c v dc p HS HG Hdc Hrun) as PS.
+  pose proof (collect_list_inv v dc p HI Hdc Hrun HG) as P.
   destruct (collect_list c v dc p) as (v1 & r). destruct r as [(dc' & p')|code| |]; auto.
-  destruct PS as (S1 & LS1 & GS1 & Elr & MS1 & Hrun').
+  destruct PS as ((S1 & LS1 & GS1 & Elr & MS1 & Hrun') & HG1).
   pose proof (nth_z_some_range _ _ _ En) as Hrg.
   destruct (Defrag.c_moves (dc_ctx dc')) as [|m0 ms0] eqn:Em.
   - match goal with |- context [pass_loop c f v1 ?rr p'] => set (run1 := rr) end.
@@ -405,12 +405,6 @@ Proof.
       destruct (Z.eq_dec i (dr_progress run)) as [->|Hne].
       - rewrite nth_z_set_same in Hn1 by exact Hrg. injection Hn1 as <-. exact Em.
       - rewrite nth_z_set_other in Hn1 by congruence. eapply Hidle; eauto. }
-    assert (HG1 : lists_g1 v1 run1).
-    { intros i dc1 l1 Hn1 Hg1. unfold run1 in Hn1. cbn [dr_ctxs] in Hn1. unfold set_nth_ctx in Hn1.
-      destruct (Z.eq_dec i (dr_progress run)) as [->|Hne].
-      - rewrite nth_z_set_same in Hn1 by exact Hrg. injection Hn1 as <-. rewrite Elr in Hg1.
-        eapply (lists_frame_g1 v v1 (dr_ctxs run) LS1 HG); eauto.
-      - rewrite nth_z_set_other in Hn1 by congruence. eapply (lists_frame_g1 v v1 (dr_ctxs run) LS1 HG); eauto. }
     pose proof (VamDefragPass.pass_loop_inv c f v1 run1 p' S1 Hidle1 Hb Ha Hrun' HG1) as QS.
     assert (Q : VamInvA v1 [] [] -> let '(v', run', r) := pass_loop c f v1 run1 p' in
                                      match r with OK _ => zlen (v_tab v') <= 4194304 -> AInv c v' [] | _ => True end).
@@ -451,18 +445,18 @@ Definition dexec_postA (v v' : vam) (run' : option dfrun) (r : out unit) : Prop 
   end.
 
 Lemma dexec_invA v run o :
-  VamInvA v [] [] -> drun_ok v run -> dop_ok v run o ->
+  VamInvA v [] [] -> VamGran.GV v -> drun_ok v run -> dop_ok v run o ->
   let '(v', run', r, dr) := dexec c v run o in dexec_postA v v' run' r.
 Proof.
-  intros HI Hr Hok. pose proof (va_s _ _ _ _ HI) as HS.
-  pose proof (dexec_inv c v run o HS Hr Hok) as PS.
+  intros HI HV Hr Hok. pose proof (va_s _ _ _ _ HI) as HS.
+  pose proof (dexec_inv c v run o HS HV Hr Hok) as PS.
   destruct o as [flags pool mb ma| |ds|]; cbn [dexec] in *.
   - pose proof (defrag_begin_inv c v flags pool mb ma HS) as P. pose proof (defrag_begin_m v flags pool mb ma) as Hm.
     destruct (defrag_begin c v flags pool mb ma) as (v1 & r). cbn [fst] in Hm. destruct P as (I1 & T1 & L1).
     assert (IA : VamInvA v1 [] []).
     { eapply (mkA_same c Hc Hmax Hlarge); [exact HI|exact I1|exact T1|exact L1|rewrite Hm; apply (mach_sameA_refl c Hc Hmax Hlarge)]. }
     destruct r as [rn|code| |]; cbn in *; auto; intros _; destruct PS as (_ & R1 & Z1); auto.
-  - destruct run as [rn|]; [|exact I]. destruct Hok as (Hidle & HG).
+  - destruct run as [rn|]; [|exact I]. pose proof Hok as Hidle. pose proof HV as HG.
     pose proof (defrag_pass_inv c v rn HS Hr Hidle HG) as PS2. destruct Hr as (Hb & Ha & Hr).
     pose proof (pass_loop_acct (S (length (dr_ctxs rn))) v rn (Pass.pass_init (dr_max_bytes rn) (dr_max_allocs rn)) HI Hidle Hb Ha
                   (PassProofs.pass_init_running _ _ Hb Ha) HG) as P.
@@ -480,19 +474,19 @@ Proof.
 Qed.
 
 Theorem dstep_preservesA v run o f :
-  VamInvA v [] [] -> drun_ok v run -> dop_ok v run o ->
+  VamInvA v [] [] -> VamGran.GV v -> drun_ok v run -> dop_ok v run o ->
   let '(v', run', r, calls, dr) := dstep c v run o f in
   r <> RPanic -> r <> RStuck -> zlen (v_tab v') <= 4194304 ->
   VamInvA v' [] [] /\ drun_ok v' run' /\ zlen (v_tab v) <= zlen (v_tab v').
 Proof.
-  intros HI Hr Hok. unfold dstep.
+  intros HI HV Hr Hok. unfold dstep.
   set (v0 := set_m v (clear_calls (set_fault (v_m v) f 0))).
   assert (Hms : forall m ff n, mach_sameA c m (clear_calls (set_fault m ff n))).
   { intros m ff n. eapply (mach_sameA_trans c Hc Hmax Hlarge); [apply (mach_sameA_set_fault c Hc Hmax Hlarge)|apply (mach_sameA_clear c Hc Hmax Hlarge)]. }
   assert (I0 : VamInvA v0 [] []) by (apply (VamInvA_mach_same c Hc Hmax Hlarge); [exact HI|apply Hms]).
   assert (Hr0 : drun_ok v0 run) by (destruct run as [rn|]; [apply run_ok_set_m; exact Hr|exact I]).
   assert (Hok0 : dop_ok v0 run o) by (destruct o; cbn in *; auto).
-  pose proof (dexec_invA v0 run o I0 Hr0 Hok0) as E. destruct (dexec c v0 run o) as (((v1 & run1) & r) & dr).
+  pose proof (dexec_invA v0 run o I0 (VamGran.GR_set_m v _ HV) Hr0 Hok0) as E. destruct (dexec c v0 run o) as (((v1 & run1) & r) & dr).
   intros Hp Hs Hbound. cbn [v_tab set_m] in Hbound.
   destruct r as [[]|code| |]; cbn in Hp, Hs; try congruence; cbn in E; destruct (E Hbound) as (A & B & C0);
     (split; [apply (VamInvA_mach_same c Hc Hmax Hlarge); [exact A|apply Hms]|];
@@ -523,6 +517,11 @@ Inductive reachDA : vam -> option dfrun -> Prop :=
     reachDA v run -> dop_ok v run o -> dstep c v run o f = (v', run', r, calls, dr) -> r <> RPanic -> r <> RStuck ->
     zlen (v_tab v') <= 4194304 -> reachDA v' run'.
 
+Lemma reachDA_reachD v run : reachDA v run -> reachD c v run.
+Proof.
+  induction 1; [eapply reachD_new; eauto|eapply reachD_step; eauto|eapply reachD_dstep; eauto].
+Qed.
+
 Theorem reachDA_inv v run : reachDA v run -> VamInvA v [] [] /\ drun_ok v run.
 Proof.
   intros R. induction R as [nslots v H Hn|v run o f v' r calls R IH Hidle Hok Hd Hs Hp Hk|v run o f v' run' r calls dr R IH Hok Hs Hp Hk Hb].
@@ -530,14 +529,10 @@ Proof.
   - destruct IH as (HI & Hr). pose proof (step_preservesA c Ha v o f HI Hok Hd) as P. rewrite Hs in P. destruct (P Hp Hk) as (I1 & _).
     pose proof (step_frame c Hc v o f (va_s _ _ _ _ HI) Hok) as F. rewrite Hs in F. specialize (F Hp Hk).
     split; [exact I1|]. destruct run as [rn|]; [|exact I]. eapply run_ok_avoid_frame; eauto.
-  - destruct IH as (HI & Hr). pose proof (dstep_preservesA c Hc Hmax Hlarge v run o f HI Hr Hok) as P. rewrite Hs in P.
+  - destruct IH as (HI & Hr). pose proof (dstep_preservesA c Hc Hmax Hlarge v run o f HI (reachD_gv c Hc v run (reachDA_reachD v run R)) Hr Hok) as P. rewrite Hs in P.
     destruct (P Hp Hk Hb) as (I1 & R1 & _). auto.
 Qed.
 
-Lemma reachDA_reachD v run : reachDA v run -> reachD c v run.
-Proof.
-  induction 1; [eapply reachD_new; eauto|eapply reachD_step; eauto|eapply reachD_dstep; eauto].
-Qed.
 
 Lemma reachA_reachDA v : reachA c v -> reachDA v None.
 Proof. induction 1; [eapply reachDA_new; eauto|eapply reachDA_step; eauto; apply idle_avoids; exact I]. Qed.
